@@ -26,6 +26,15 @@
 #define SUB_QUEUED_MSG(m)                                                  \
 	((m)->m_header_len <= MSG_HDRCAP && (m)->m_refcnt.v >= 1 &&            \
 	    (m)->m_refcnt.v < 1000 && CH_FULL_PRE(&(m)->m_body))
+/* BOUND (unsubscribe unit only): a queued message has a 16-byte buffer (twice the topic
+ * bound; any headroom and length inside it, all bytes symbolic): the requeue loop reads every
+ * queued body against every topic, and unbounded arrays make the array theory run out of memory */
+#define SUB_QUEUED_MSG16(m)                                                \
+	((m)->m_header_len <= MSG_HDRCAP && (m)->m_refcnt.v >= 1 &&            \
+	    (m)->m_refcnt.v < 1000 && (m)->m_body.ch_cap == 16 &&              \
+	    __CPROVER_is_fresh((m)->m_body.ch_buf, 16) &&                      \
+	    __CPROVER_pointer_in_range_dfcc((m)->m_body.ch_buf, (m)->m_body.ch_ptr, (m)->m_body.ch_buf + 16) && \
+	    CH_FULL_SCALAR(&(m)->m_body))
 /* per-context state; STABLE STATE: receivers wait only while the queue is empty */
 #define SUB_CTX_PRE(c, Q)                                                  \
 	(SUB_LMQ_PRE(&(c)->lmq) && ((Q).n == 0 || (c)->lmq.lmq_len == 0) &&    \
